@@ -2,9 +2,22 @@
  * engine/setup.sh checks that every ENABLE_MODULE_* tested in $REPO/src/secp256k1.c is listed here. */
 #ifndef VERIF_CFG_H
 #define VERIF_CFG_H
+/* Table-size parameters.  The precomputed ecmult/ecmult_gen tables are `extern const` arrays with no
+ * definition in a harness TU (about 1 MB of unconstrained bytes: ~30 s and ~1 GB per unit for
+ * nothing).  Units in which no function under contract reads the tables (ecmult, ecmult_gen,
+ * ecmult_const are replaced by contracts) are therefore verified with the smallest supported preset
+ * (window 2, comb 2x5 = the ECMULT_GEN_KB=2 preset); units that do execute table code define
+ * VERIF_BIG_TABLES (shipped sizes: window 15, comb 43x6).  The native replay build always uses the
+ * shipped sizes, which are the ones precomputed_ecmult*.c is generated for. */
+#if defined(VERIF_BIG_TABLES) || defined(VERIF_NATIVE)
 #define ECMULT_WINDOW_SIZE 15
 #define COMB_BLOCKS 43
 #define COMB_TEETH 6
+#else
+#define ECMULT_WINDOW_SIZE 2
+#define COMB_BLOCKS 2
+#define COMB_TEETH 5
+#endif
 #define ENABLE_MODULE_ECDH 1
 #define ENABLE_MODULE_RECOVERY 1
 #define ENABLE_MODULE_EXTRAKEYS 1
